@@ -2,7 +2,9 @@
 
 Decided statically: every write of the token count is capped at capacity (or a guarded −1), the limiter consumes
 tenant→global with a refund on global refusal, and the limiter is on the path of every tenant-scoped RPC and of every
-streamed item.  The numeric rate bound itself (floating-point refill over real time) is not decided.
+streamed item; a live bucket's state changes only through the bucket's own operations (R4), the rate enforced is the one declared
+with the key (R5) and a unary request is charged once (R6).  The numeric rate bound itself (floating-point refill over real time)
+is not decided.
 """
 import re
 
@@ -15,7 +17,9 @@ MANIFEST = {
             '(2) the shape of RateLimiter::check_limit on both bucket paths: admitted only past tenant and global consumption, '
             'global consumed only after the tenant passed, tenant refunded when the global limit refuses, no map lock held '
             'while a bucket is consumed; (3) every tenant-scoped RPC and every streamed item passes enforce_rate_limit before '
-            'touching the engine. The inequality over time is not decided.',
+            'touching the engine; (4) no whole-bucket store / escaping &mut TokenBucket / replacing write of the bucket map (a registered bucket is '
+            'reset only by time); (5) the TenantContext carries the validated key\'s own max_qps unless that is 0; (6) at most one limiter charge on any '
+            'path of a unary handler. The inequality over time is not decided.',
     'design_ref': 'DESIGN.md §4.19',
     'note': 'Trusted base: rustc MIR, path-sensitive exploration of check_limit with marked consumption edges, dominance over '
             'handler CFGs (per-item limiting is checked as "no two executions of an engine sink without a limiter success between").',
@@ -421,6 +425,9 @@ def run(ctx, prog):
                 # creation site in its parent is dominated
                 if not dom and not en and b.kind == 'Closure':
                     dom = _creation_dominated(prog, b, fam + extra)
+                # the shared search helper does not charge itself: then every call of it in the handler has to come after a limiter success there
+                if not dom and b in extra and not any(x.calls_to('KyroDBServiceImpl::enforce_rate_limit') for x in extra):
+                    dom = _helper_call_dominated(prog, extra[0])
                 # stream loops only: a cycle through an await point (in-memory `for` loops over one request's items do not count)
                 yields = [i_ for i_, blk_ in enumerate(b.blocks) if blk_['t']['k'] == 'yield']
                 after = b.reach(b.succ(c.bb))
@@ -666,6 +673,25 @@ def charged_once(ctx, prog):
                  'charging calls: %s' % [flow.short(c.callee) for b, s in per_body for c in s])
     ctx.floor('C19.R6', 'unary tenant-scoped handlers', n_unary, 7, 'insert, query, delete, update_metadata, search, bulk_query, batch_delete')
     ctx.floor('C19.R6', 'charging call sites in unary handlers', n_sites, 7, 'one each')
+
+
+def _helper_call_dominated(prog, helper_root):
+    """every call of the helper anywhere in the server comes after a limiter success in the calling body"""
+    sites = 0
+    for b in prog.bodies.values():
+        if b.crate != 'kyrodb_server':
+            continue
+        cs = [c for c in b.calls if c.callee and c.callee == helper_root.id]
+        if not cs:
+            continue
+        e_succ = []
+        for c in b.calls_to('KyroDBServiceImpl::enforce_rate_limit'):
+            e_succ += flow.success_edges(b, c)
+        r0 = b.reach([0], avoid_edges=e_succ)
+        if not e_succ or any(c.bb in r0 or c.bb == 0 for c in cs):
+            return False
+        sites += len(cs)
+    return sites > 0
 
 
 def _creation_dominated(prog, closure, family):
